@@ -115,6 +115,10 @@ struct DisabledTerminalIn;
 
 impl common::TerminalIn for DisabledTerminalIn {
     fn read_line(&mut self, _: Option<&str>, _: &mut String) -> std::io::Result<()> {
-        todo!()
+        // TeX.2021.484: fatal error "*** (cannot \read from terminal in nonstop modes)"
+        Err(std::io::Error::new(
+            std::io::ErrorKind::Unsupported,
+            r"cannot \read from terminal in nonstop modes",
+        ))
     }
 }
